@@ -165,14 +165,22 @@ func (w *World) checkSnap(cur *Snap) {
 	w.oracleC10(cur)
 	w.oracleC05hist(cur)
 	w.oracleC01(cur, prev, st)
-	// C07 at all times (also under natural truncation, which no step brackets): what was once
-	// confirmed stays in the ledger, and the checkpoint equals the net flow of what is stored
-	if prev != nil && prev.Loaded && len(prev.Stored) < len(cur.Stored) {
-		// a truncation happened between the two snapshots: nothing that was confirmed before may be gone.
-		// (Outside truncation a vertex that lost its only child can be re-validated and dropped: not C07's business.)
-		for h := range prev.confirmed() {
-			if cur.get(h) == nil {
-				w.violate("C07", "lost", "confirmed-vertex-lost-by-truncation", cur.Node, "vertex %s", hx(h))
+	// C07 at all times (also under the weight-triggered truncation, which no step brackets): what was
+	// confirmed stays in the ledger. A confirmed vertex can legitimately disappear only after its
+	// children did (an invalid tip is dropped, its parent becomes a tip again and may be dropped in turn:
+	// C01's mechanism); a vertex that is gone from graph and storage while one of its children is still
+	// there was lost.
+	if prev != nil && prev.Loaded {
+		ch := prev.liveChildrenByDecl()
+		for _, h := range sortedHashes(prev.confirmed()) {
+			if cur.get(h) != nil {
+				continue
+			}
+			for _, c := range ch[h] {
+				if cur.get(c) != nil {
+					w.violate("C07", "lost", "confirmed-vertex-lost-while-its-child-remains", cur.Node, "vertex %s (child %s still in the ledger; stored before %d now %d)", hx(h), hx(c), len(prev.Stored), len(cur.Stored))
+					break
+				}
 			}
 		}
 	}
